@@ -48,11 +48,16 @@ pub struct Faults {
     counters: BTreeMap<String, u64>,
     rngs: BTreeMap<String, Rng>,
     pub fired: Vec<FaultDecision>,
+    pub disabled: bool,
 }
 
 impl Faults {
+    /// Stop injecting (used for "after faults stop" liveness phases); opportunities are still numbered.
+    pub fn disable(&mut self) {
+        self.disabled = true;
+    }
     pub fn new(mode: FaultMode) -> Self {
-        Faults { mode, counters: BTreeMap::new(), rngs: BTreeMap::new(), fired: Vec::new() }
+        Faults { mode, counters: BTreeMap::new(), rngs: BTreeMap::new(), fired: Vec::new(), disabled: false }
     }
     /// One fault opportunity on `stream`. `kinds` lists (kind, base per-mille weight, max arg).
     /// Returns the fault to inject, if any, with an argument in `0..=max_arg`.
@@ -63,6 +68,9 @@ impl Faults {
             *c += 1;
             i
         };
+        if self.disabled {
+            return None;
+        }
         match &self.mode {
             FaultMode::Random { seed, rate_pm } => {
                 if *rate_pm == 0 {
